@@ -192,6 +192,15 @@ def _moments(n, dim, tier):
                         vc.cut(f"O-C18-moments.symmetric-psd{N}", vc.le(0, w[i] * (qs[i] + ts[i] * ts[i])))
                 psd = vc.And(vc.eq(got_p[0, 1], got_p[1, 0], 1e-9), vc.le(0, form, 1e-7))
             vc.ensure(f"O-C18-moments.symmetric-psd{N}", psd)
+        # the prediction path (predict / forecast, and the prediction result shipped back by the parallel layer) forms the predicted moments in _compilePredictStep itself,
+        # without the re-stacking the update path does first: same mixture formulas, from whatever the attributes held before
+        f2 = vc.new(AF + "AdaptiveFilter", models=models, model_weights=_arr(vc, w), x_dim=dim, stacking_method=eci,
+                    est_x=np.zeros(dim, dtype=dt), pred_x=np.array([7.0] * dim, dtype=dt), pred_p=np.array([[3.0] * dim] * dim, dtype=dt))
+        f2._compilePredictStep()
+        mean = sum((w[i] * pxs[i] for i in range(1, n)), w[0] * pxs[0])
+        cov = sum((w[i] * (pPs[i] + np.outer(pxs[i] - mean, pxs[i] - mean)) for i in range(1, n)), w[0] * (pPs[0] + np.outer(pxs[0] - mean, pxs[0] - mean)))
+        vc.ensure(f"O-C18-moments.mean{N}", vc.eq(f2.pred_x, mean, 1e-9))
+        vc.ensure(f"O-C18-moments.cov{N}", vc.eq(f2.pred_p, cov, 1e-7))
     return h
 
 
@@ -408,3 +417,30 @@ def sequence_bounded(vc):
     vc.ensure("B-C18-seq.one-remains", bool(ok["remains"]))
     vc.ensure("B-C18-seq.moment-matched", bool(ok["moments"]))
     vc.ensure("B-C18-seq.closure-survivor", bool(ok["closure"]))
+
+
+@obligation("C18", "adaptive_config_bounded", ensures=["B-C18-config.parameters", "B-C18-config.class"],
+            fns=["resonaate.estimation:adaptiveEstimationFactory", GP + "GeneralizedPseudoBayesian1.fromConfig", AF + "AdaptiveFilter.fromConfig"], mode="Z", native_only=True, samples=20,
+            bounded="BOUNDED stand-in, not a proof (pydantic configuration models, deepcopy of a real filter): 20 (quick) / 200 (thorough) sampled configurations per run, both methods",
+            note="the adaptive filter built from a configuration carries that configuration: observation window, model interval, both pruning parameters, the stacking and orbit-determination "
+                 "functions the labels name and - for GPB1 - the configured mixing ratio of the mode-transition matrix (the obligations above are about the constructed object's parameters)")
+def adaptive_config_bounded(vc):
+    from resonaate.estimation import adaptiveEstimationFactory
+    from resonaate.estimation.adaptive.gpb1 import GeneralizedPseudoBayesian1
+    from resonaate.estimation.adaptive.smm import StaticMultipleModel
+    from resonaate.estimation.adaptive.mmae_stacking_utils import eciStack
+    from resonaate.estimation.kalman.unscented_kalman_filter import UnscentedKalmanFilter
+    from resonaate.scenario.config.estimation_config import GPB1AdaptiveEstimationConfig, SMMAdaptiveEstimationConfig
+    from resonaate.physics.time.stardate import ScenarioTime
+    gpb = vc.bool("gpb1")
+    fields = dict(model_interval=vc.int("model_interval", 1, 600), observation_window=vc.int("observation_window", 1, 9),
+                  prune_threshold=vc.real("prune_threshold", 1e-12, 0.3), prune_percentage=vc.real("prune_percentage", 0.5, 0.9999))
+    mix = vc.real("mix_ratio", 0.6, 40)
+    cfg = GPB1AdaptiveEstimationConfig(name="gpb1", mix_ratio=mix, **fields) if gpb else SMMAdaptiveEstimationConfig(name="smm", **fields)
+    dyn = _NS(propagate=lambda t0, tf, X, scheduled_events=None: X)
+    nominal = UnscentedKalmanFilter(7, 0.0, np.arange(6.0), np.eye(6), dyn, np.eye(6) * 1e-9, _NS(metric=0.0), False, True)
+    f = adaptiveEstimationFactory(cfg, nominal, ScenarioTime(vc.int("step", 1, 900)))
+    vc.ensure("B-C18-config.class", type(f) is (GeneralizedPseudoBayesian1 if gpb else StaticMultipleModel) and f.target_id == 7)
+    vc.ensure("B-C18-config.parameters", f.model_interval == fields["model_interval"] and f.previous_obs_window == fields["observation_window"]
+              and f.prune_threshold == fields["prune_threshold"] and f.prune_percentage == fields["prune_percentage"] and f.stacking_method is eciStack
+              and callable(f.orbit_determination_method) and (not gpb or f.mix_ratio == mix))
